@@ -132,6 +132,7 @@ static void caseC01(uint64_t idx, vh::Rng& g)
 	// a fifth of the cases: operands are RESULTS of language-preserving operations (objects with a history);
 	// the reference verdict is unaffected
 	int derive = g.chance(1, 5) ? 1 + static_cast<int>(g.below(5)) : 0; if (derive) R->count("derived-operands");
+	if (derive == 4) { small = small && gen::maxTuples(b) * 2 <= 9; heavy = gen::maxTuples(b) * 2 > 12; }   // Union(B,B) doubles the tuples
 	auto mk = [&](const RTA& x, const char* nm) {
 		Aut r = viaText ? loadText<Aut>(rm::toTimbuk(x, al, nm)) : mkExpl(x, ca);
 		switch (derive)
